@@ -556,6 +556,8 @@ class BuilderEngine(object):
             return self.run_seq(index)
         run_seed = mix(self.seed, PROP, index)
         rng = Rng(run_seed)
+        if rng.fork("kind").chance(0.12):
+            return self.run_multi(index, run_seed, rng)
         sw = draw_swarm(rng.fork("swarm"))
         agent = LiveAgent(rng.fork("workload"), rng.fork("faults"), sw, sw["version"], sw["all"],
                           self.labels[sw["version"]])
@@ -568,6 +570,75 @@ class BuilderEngine(object):
         for k, n in agent.counters.items():
             out["counters"][k] = out["counters"].get(k, 0) + n
         return out
+
+    # -- several builder calls in ONE fresh process (state that survives between calls) -----
+    def run_multi(self, index, run_seed, rng):
+        from .engine_state import fork_run
+
+        n = rng.fork("n").choice([2, 2, 3])
+        sws = []
+        for k in range(n):
+            sw = draw_swarm(rng.fork("swarm%d" % k))
+            if k > 0 and rng.fork("rel%d" % k).chance(0.65):
+                # related to the previous call: same version family, other minor version / other mode
+                prev = sws[-1]
+                rel = rng.fork("relkind%d" % k).choice(["same", "other_mode", "other_minor", "other_mode_and_minor"])
+                sw["version"] = prev["version"]
+                sw["all"] = prev["all"]
+                if "mode" in rel:
+                    sw["all"] = not prev["all"]
+                if "minor" in rel and prev["version"] in ("3.0", "3.1"):
+                    sw["version"] = "3.1" if prev["version"] == "3.0" else "3.0"
+                nq = len(spec.SPECS[sw["version"]].metrics(sw["all"]))
+                sw["fault"]["k"] = sw["fault"]["k"] % (nq * 2 + 2)
+            sws.append(sw)
+
+        def child():
+            out = []
+            for k, sw in enumerate(sws):
+                agent = LiveAgent(rng.fork("workload%d" % k), rng.fork("faults%d" % k), sw, sw["version"], sw["all"],
+                                  self.labels[sw["version"]])
+                rec = runner23.ScriptAgent([], fallback=agent)
+                res = runner23.run_builder(sw["version"], sw["all"], sw["nocolor"], rec, MAX_READS,
+                                           alt_spelling=sw["alt_version_spelling"])
+                out.append([rec.served, res, agent.counters])
+            return out
+
+        results = fork_run(child)
+        items = []
+        for sw, (served, res, counters) in zip(sws, results):
+            items.append({"k": "builder", "version": sw["version"], "all": sw["all"], "nocolor": sw["nocolor"],
+                          "script": served, "cap": MAX_READS, "alt_version_spelling": sw["alt_version_spelling"]})
+        trace = {"engine": "builder", "run_seed": run_seed, "run_index": index, "items": items}
+        out = self.assess_multi(trace, [r[1] for r in results])
+        for _, _, counters in results:
+            for k, c in counters.items():
+                out["counters"][k] = out["counters"].get(k, 0) + c
+        return out
+
+    def assess_multi(self, trace, results):
+        outs = []
+        for k, (item, res) in enumerate(zip(trace["items"], results)):
+            o = self.assess({"item": item}, res)
+            for v in o["violations"]:
+                if k > 0:
+                    prev = trace["items"][k - 1]
+                    v["message"] += " [call #%d of the process; the call before it was ask_interactively(%s, all_metrics=%s)%s]" % (
+                        k + 1, prev["version"], prev["all"], " ended by end of input" if results[k - 1]["exc"] else "")
+            outs.append(o)
+        vio, seen = [], set()
+        counters = {}
+        for o in outs:
+            for v in o["violations"]:
+                if v["sig"] not in seen:
+                    seen.add(v["sig"])
+                    vio.append(v)
+            for k, c in o["counters"].items():
+                counters[k] = counters.get(k, 0) + c
+        counters["runs.several_builder_calls_in_one_process"] = 1
+        return {"trace": trace, "digest": runner23.digest([o["digest"] for o in outs]), "violations": vio, "counters": counters,
+                "nontrivial": any(o["nontrivial"] for o in outs), "steps": sum(o["steps"] for o in outs),
+                "sample": {"calls_in_one_process": [o["sample"] for o in outs]}}
 
     def run_sweep(self, index):
         version, metric, value, how, text = self.cases[index]
@@ -606,6 +677,22 @@ class BuilderEngine(object):
 
     # -- replay / shrink ------------------------------------------------------------------
     def execute(self, trace, shrinking=False):
+        if "items" in trace:
+            from .engine_state import fork_run
+
+            def child():
+                out = []
+                for item in trace["items"]:
+                    rec = runner23.ScriptAgent(item["script"], fallback=runner23.FirstOfferedAgent() if shrinking else None)
+                    res = runner23.run_builder(item["version"], item["all"], item["nocolor"], rec, item.get("cap", MAX_READS),
+                                               alt_spelling=item.get("alt_version_spelling", False))
+                    out.append([rec.served, res])
+                return out
+
+            results = fork_run(child)
+            t = dict(trace)
+            t["items"] = [dict(it, script=[list(x) for x in served]) for it, (served, _) in zip(trace["items"], results)]
+            return self.assess_multi(t, [r[1] for r in results])
         item = trace["item"]
         fallback = runner23.FirstOfferedAgent() if shrinking else None
         rec = runner23.ScriptAgent(item["script"], fallback=fallback)
@@ -637,10 +724,23 @@ class BuilderEngine(object):
                 "result": res}
 
     def trace_size(self, trace):
+        if "items" in trace:
+            return sum(self.trace_size({"item": it}) for it in trace["items"]) + 30 * len(trace["items"])
         it = trace["item"]
         return len(it["script"]) * 4 + sum(min(len(a[1]), 40) for a in it["script"]) + (2 if it["all"] else 0)
 
     def shrink_candidates(self, trace):
+        if "items" in trace:
+            items = trace["items"]
+            if len(items) == 1:
+                yield dict((k, v) for k, v in list(trace.items()) + [("item", items[0])] if k != "items")
+            for cand in list_deletions(items):
+                if cand:
+                    yield dict(trace, items=cand)
+            for i, it in enumerate(items):
+                for c in self.shrink_candidates({"item": it}):
+                    yield dict(trace, items=items[:i] + [c["item"]] + items[i + 1:])
+            return
         it = trace["item"]
 
         def with_item(**kw):
